@@ -265,7 +265,7 @@ func runC05(tier string, r *Result) {
 		}
 	}
 	// documentation blocks (only trees of the member-shape family and the base)
-	docSets := [][]string{nil, {"d"}, {"d1", "d2"}, {""}, {"x", "", "y"}, {"  indented", "#hash # more"}, {"é😀"}}
+	docSets := [][]string{nil, {"d"}, {"d1", "d2"}, {""}, {"x", "", "y"}, {"  indented", "#hash # more"}, {"é😀"}, {"1) first", "(unique [", "-> :) type T ()"}}
 	for ti, d := range trees {
 		if !r.mine(ti) || len(d.Members) > 3 || (ti > 6 && !strings.HasPrefix(d.Members[0].Name, "N")) {
 			continue
@@ -276,22 +276,24 @@ func runC05(tier string, r *Result) {
 		for di, ds := range docSets {
 			for _, indent := range []string{"", "  ", "\t"} {
 				for _, crlf := range []bool{false, true} {
-					dd := &RIDL{Name: d.Name, Doc: docSets[(di+1)%len(docSets)]}
-					for mi, m := range d.Members {
-						m.Doc = docSets[(di+mi)%len(docSets)]
-						dd.Members = append(dd.Members, m)
-					}
-					_ = ds
-					text := renderDocs(dd, indent, crlf)
-					in := c05Input{Tree: dd, Text: text, Docs: true, Where: fmt.Sprintf("docs indent=%q crlf=%v", indent, crlf)}
-					r.Executions++
-					r.Steps += len(text)
-					r.distinct(text)
-					if msg, key := judgeC05(in); msg != "" {
-						r.violation(key, msg, in)
-						r.outcome("violation:" + key)
-					} else {
-						r.outcome("ok:docs")
+					for _, inner := range []string{"", "\n", " # c\n", "\r\n"} {
+						dd := &RIDL{Name: d.Name, Doc: docSets[(di+1)%len(docSets)]}
+						for mi, m := range d.Members {
+							m.Doc = docSets[(di+mi)%len(docSets)]
+							dd.Members = append(dd.Members, m)
+						}
+						_ = ds
+						text := renderDocs(dd, indent, crlf, inner)
+						in := c05Input{Tree: dd, Text: text, Docs: true, Where: fmt.Sprintf("docs indent=%q crlf=%v inner=%q", indent, crlf, inner)}
+						r.Executions++
+						r.Steps += len(text)
+						r.distinct(text)
+						if msg, key := judgeC05(in); msg != "" {
+							r.violation(key, msg, in)
+							r.outcome("violation:" + key)
+						} else {
+							r.outcome("ok:docs")
+						}
 					}
 				}
 			}
